@@ -186,11 +186,52 @@ def is_cipher_out(t, which):
     return None
 
 
+def rule_use(ctx):
+    """the library's own users of MediaCipher (the demo sink worker): one decrypt attempt with the kind the message
+    announces - no retry with the other kinds' constants, which would accept media keyed for another kind - and a
+    decrypted result is told from a failure by `is None`, not by truthiness (the empty file is a valid plaintext)"""
+    repo = ctx.repo
+    n = 0
+    for m in sorted(repo.modules.values(), key=lambda m: m.relpath):
+        if m.relpath == FILE or "/test_" in m.relpath or not any(isinstance(x, ast.Name) and x.id == CLS for x in ast.walk(m.tree)):
+            continue
+        for c in m.classes.values():
+            wrappers = set()
+            for name, fn in c.methods.items():
+                calls = [x for x in ast.walk(fn) if isinstance(x, ast.Call) and isinstance(x.func, ast.Attribute) and x.func.attr.startswith("decrypt") and "cipher" in ast.unparse(x.func.value).lower()]
+                if not calls:
+                    continue
+                wrappers.add(name)
+                repo.consulted.add(m.relpath)
+                for call in calls:
+                    n += 1
+                    loops = [l for l in ast.walk(fn) if isinstance(l, (ast.For, ast.While)) and any(y is call for st in l.body for y in ast.walk(st))]
+                    ctx.check("C15.use", not loops, where(m.relpath, "%s.%s" % (c.name, name), call.lineno), call,
+                              "the decrypt call sits in a loop over %s: after a failed MAC check it is retried with other kinds' constants, so media keyed for one kind is accepted when announced as another" % (ast.unparse(loops[0].iter)[:50] if loops and isinstance(loops[0], ast.For) else "attempts"),
+                              "one attempt with the announced kind")
+            for name, fn in c.methods.items():
+                holders = {t.id for st in ast.walk(fn) if isinstance(st, ast.Assign) and isinstance(st.value, ast.Call) and isinstance(st.value.func, ast.Attribute)
+                           and st.value.func.attr in wrappers and isinstance(st.value.func.value, ast.Name) and st.value.func.value.id == "self" for t in st.targets if isinstance(t, ast.Name)}
+                for h in sorted(holders):
+                    for t in ast.walk(fn):
+                        test = t.test if isinstance(t, (ast.If, ast.While, ast.IfExp)) else None
+                        if test is None:
+                            continue
+                        truthy = (isinstance(test, ast.Name) and test.id == h) or (isinstance(test, ast.UnaryOp) and isinstance(test.op, ast.Not) and isinstance(test.operand, ast.Name) and test.operand.id == h)
+                        isnone = isinstance(test, ast.Compare) and isinstance(test.left, ast.Name) and test.left.id == h
+                        if truthy or isnone:
+                            n += 1
+                            ctx.check("C15.use", not truthy, where(m.relpath, "%s.%s" % (c.name, name), t.lineno), "result `%s` tested by %s" % (h, ast.unparse(test)),
+                                      "the decrypted content is tested for truthiness: a correctly encrypted and authenticated empty file is reported as a decryption failure", "failure told from content by `is None`")
+    ctx.units["C15.use_sites"] = n
+
+
 def run(ctx):
     ctx.rule("C15.kdf", "same derivation length and identical, disjoint iv/key/mac-key slices in both directions", floor=3)
     ctx.rule("C15.pad", "pad on every encrypt path, unpad on every decrypt path, same block size", floor=2)
     ctx.rule("C15.mac", "MAC over iv||ciphertext, same digest, same truncation as the split in decrypt", floor=3)
     ctx.rule("C15.first", "MAC verification dominates the decryptor", floor=1)
+    ctx.rule("C15.use", "callers of MediaCipher: one attempt with the announced kind; failure detected by `is None`", floor=2)
     ctx.rule("C15.kinds", "four distinct info constants used symmetrically", floor=5)
     ctx.assume("AES-CBC, HKDF, HMAC and PKCS7 primitives of `cryptography`/python-axolotl are trusted")
     cls, efn, eg, eres = ctx.guarded("C15.direction", analyse_direction, ctx, "encrypt")
@@ -379,3 +420,4 @@ def run(ctx):
     vals = [d.get("encrypt_") for d in infos.values()]
     ctx.check("C15.kinds", len(infos) >= 4 and len(set(vals)) == len(vals), where(FILE, CLS, None), "info constants",
               "media kinds share an info constant (a file of one kind decrypts as another): %s" % sorted(map(repr, vals)), "%d distinct constants" % len(vals))
+    ctx.guarded("C15.use", rule_use, ctx)
